@@ -387,6 +387,7 @@ func init() {
 		rc.Assume = append(rc.Assume,
 			"histories over the C03 alphabet (DESIGN 4/C03) up to the stated depth, from every reachable deduplicated implementation state",
 			"probe set: witness paths of all pool patterns (live or not) plus first-byte variants, 6 methods",
+			"frame law on every ordered pair of patterns built from <=2 of 20 unusual tokens (empty rule, braces inside a rule, '-' flag, multi-byte literals): an accepted second registration leaves every path the first route served still served, and the first route serves no path it did not serve alone",
 			"state merge is sound because the key is a full reflective dump of the router object graph plus the model table")
 		rc.Set("alphabet_size", len(c03Alphabet()))
 		rc.Set("depth_bound", depth)
@@ -400,6 +401,19 @@ func init() {
 		}
 		// family 1: literal text after a parameter split between two routes, then one of them removed again
 		explore.BFS(rc, "c03/expand", c03Cfg{Router: RouterCfg{}, Family: 1}, depth+1, true, "C03 split literal suffix")
+		// frame law over unusual pattern spellings (the reference tokenizer has no opinion on them, the law needs none):
+		// an accepted second registration takes no path away from the first route and gives it no new one
+		var xitems []exoticItem
+		for _, p := range c17ExoticPool() {
+			xitems = append(xitems, exoticItem{Prop: "C03", First: p})
+		}
+		explore.ParMap(rc, "c17/exotic", xitems, func(i int, in exoticItem, o pairOut) {
+			rc.Add("exotic_pairs", o.Pairs)
+			rc.Add("transitions", o.Pairs)
+			for _, v := range o.Viols {
+				rc.Report(v)
+			}
+		})
 		// no-dedup pass: every history literally enumerated
 		nd := 2
 		rc.Set("nodedup_depth", nd)
